@@ -4,9 +4,9 @@ package main
 // (listed in evidence under stubs_hit).
 
 import (
-	"os"
 	"fmt"
 	"go/types"
+	"os"
 	"strings"
 
 	"golang.org/x/tools/go/ssa"
